@@ -319,6 +319,235 @@ func sysNamesakeVar(p *Pkg, f *File, id int) []edit {
 	return eds
 }
 
+// ---------- odd-comments ----------
+var oddCommentTexts = func() []string {
+	var out []string
+	for _, ch := range []string{"İ", "ẞ", "K", "ſ", "Ⱥ"} {
+		for k := 0; k < 12; k++ {
+			out = append(out, ch+strings.Repeat("L", k), strings.Repeat("l", k)+ch)
+		}
+	}
+	return append(out, "", "x", " ", "nolİnt:gocritic", "NOLİNT", "TODO(İ)", "Deprecated:İ", "é", "go:İ", "if İ { return }", "import \"İ\"", "%s%!d")
+}()
+
+// sysOddComments inserts line comments with odd texts before every declaration and at the top of every function body.
+func sysOddComments(f *File, id int) []edit {
+	var eds []edit
+	k := id
+	next := func() string {
+		k++
+		return "//" + oddCommentTexts[k%len(oddCommentTexts)]
+	}
+	for _, d := range f.AST.Decls {
+		if gd, ok := d.(*ast.GenDecl); ok && gd.Tok == token.IMPORT {
+			continue
+		}
+		pos := d.Pos()
+		switch x := d.(type) {
+		case *ast.FuncDecl:
+			if x.Doc != nil {
+				pos = x.Doc.Pos()
+			}
+			if x.Body != nil {
+				at := off(x.Body.Lbrace) + 1
+				eds = append(eds, edit{at, at, "\n\t" + next() + "\n\t" + next() + "\n"})
+			}
+		case *ast.GenDecl:
+			if x.Doc != nil {
+				pos = x.Doc.Pos()
+			}
+		}
+		eds = append(eds, edit{off(pos), off(pos), next() + "\n"})
+	}
+	return eds
+}
+
+// ---------- retype-receiver (+ constify) ----------
+// One parameter whose type is a named type of an imported package (or a pointer to one) and which is only used as the
+// receiver of method calls is re-declared with a fresh user type that has those methods with the same signatures:
+// exactly the "type of $x" guard of a rule is violated, everything else in the file stays as it was. With constify the
+// string/int parameters of the same function that are only read are additionally replaced by literals at their uses,
+// so that `.Const` guards on the other pattern variables hold.
+func sysRetype(p *Pkg, f *File, id int, constify bool) [][]edit {
+	localName := map[*types.Package]string{}
+	for _, is := range f.AST.Imports {
+		var pn *types.PkgName
+		if is.Name != nil {
+			pn, _ = p.Info.Defs[is.Name].(*types.PkgName)
+		} else {
+			pn, _ = p.Info.Implicits[is].(*types.PkgName)
+		}
+		if pn != nil {
+			localName[pn.Imported()] = pn.Name()
+		}
+	}
+	qual := func(other *types.Package) string {
+		if other == p.Types {
+			return ""
+		}
+		if n, ok := localName[other]; ok {
+			return n
+		}
+		return "?missing?"
+	}
+	// uses of every variable
+	uses := map[types.Object][]*ast.Ident{}
+	for id, o := range p.Info.Uses {
+		if _, ok := o.(*types.Var); ok && Fset.File(id.Pos()) == Fset.File(f.AST.Pos()) {
+			uses[o] = append(uses[o], id)
+		}
+	}
+	parent := map[ast.Node]ast.Node{}
+	var stack []ast.Node
+	ast.Inspect(f.AST, func(n ast.Node) bool {
+		if n == nil {
+			stack = stack[:len(stack)-1]
+			return true
+		}
+		if len(stack) > 0 {
+			parent[n] = stack[len(stack)-1]
+		}
+		stack = append(stack, n)
+		return true
+	})
+	var out [][]edit
+	n := 0
+	for _, d := range f.AST.Decls {
+		fd, ok := d.(*ast.FuncDecl)
+		if !ok || fd.Body == nil {
+			continue
+		}
+		// constify edits for this function
+		var constEds []edit
+		if constify {
+			for _, fl := range fd.Type.Params.List {
+				for _, nm := range fl.Names {
+					o := p.Info.Defs[nm]
+					if o == nil {
+						continue
+					}
+					lit := ""
+					if b, ok := o.Type().(*types.Basic); ok {
+						switch {
+						case b.Kind() == types.String:
+							lit = fmt.Sprintf("%q", nm.Name+".go")
+						case b.Info()&types.IsInteger != 0:
+							lit = "1"
+						}
+					}
+					if lit == "" {
+						continue
+					}
+					readOnly := true
+					for _, u := range uses[o] {
+						switch pp := parent[u].(type) {
+						case *ast.AssignStmt:
+							for _, l := range pp.Lhs {
+								if l == ast.Expr(u) {
+									readOnly = false
+								}
+							}
+						case *ast.UnaryExpr:
+							if pp.Op == token.AND {
+								readOnly = false
+							}
+						case *ast.IncDecStmt:
+							readOnly = false
+						}
+					}
+					if !readOnly {
+						continue
+					}
+					for _, u := range uses[o] {
+						constEds = append(constEds, edit{off(u.Pos()), off(u.End()), lit})
+					}
+					constEds = append(constEds, edit{off(fd.Body.Lbrace) + 1, off(fd.Body.Lbrace) + 1, fmt.Sprintf("\n\t_ = %s\n", nm.Name)})
+				}
+			}
+			if len(constEds) == 0 {
+				continue
+			}
+		}
+		for _, fl := range fd.Type.Params.List {
+			if len(fl.Names) != 1 {
+				continue
+			}
+			o := p.Info.Defs[fl.Names[0]]
+			if o == nil {
+				continue
+			}
+			t := o.Type()
+			if pt, ok := t.(*types.Pointer); ok {
+				t = pt.Elem()
+			}
+			named, ok := t.(*types.Named)
+			if !ok || named.Obj().Pkg() == nil || named.Obj().Pkg() == p.Types || named.TypeParams() != nil {
+				continue
+			}
+			if _, isIface := named.Underlying().(*types.Interface); isIface {
+				continue
+			}
+			methods := map[string]*types.Func{}
+			good := len(uses[o]) > 0
+			for _, u := range uses[o] {
+				sel, ok := parent[u].(*ast.SelectorExpr)
+				if !ok || sel.X != ast.Expr(u) {
+					good = false
+					break
+				}
+				call, ok := parent[sel].(*ast.CallExpr)
+				fn, isFn := p.Info.Uses[sel.Sel].(*types.Func)
+				if !ok || call.Fun != ast.Expr(sel) || !isFn {
+					good = false
+					break
+				}
+				methods[fn.Name()] = fn
+			}
+			if !good || len(methods) == 0 {
+				continue
+			}
+			n++
+			typ := fmt.Sprintf("nm_%s__%d_%d", named.Obj().Name(), id, n)
+			var b strings.Builder
+			fmt.Fprintf(&b, "\ntype %s struct{}\n", typ)
+			names := make([]string, 0, len(methods))
+			for m := range methods {
+				names = append(names, m)
+			}
+			sort.Strings(names)
+			for _, m := range names {
+				sig := methods[m].Type().(*types.Signature)
+				var ps, rs []string
+				for i := 0; i < sig.Params().Len(); i++ {
+					pt := sig.Params().At(i).Type()
+					ts := types.TypeString(pt, qual)
+					if sig.Variadic() && i == sig.Params().Len()-1 {
+						ts = "..." + types.TypeString(pt.(*types.Slice).Elem(), qual)
+					}
+					ps = append(ps, fmt.Sprintf("p%d %s", i, ts))
+				}
+				for i := 0; i < sig.Results().Len(); i++ {
+					rs = append(rs, types.TypeString(sig.Results().At(i).Type(), qual))
+				}
+				fmt.Fprintf(&b, "func (*%s) %s(%s) (%s) { panic(0) }\n", typ, m, strings.Join(ps, ", "), strings.Join(rs, ", "))
+			}
+			if strings.Contains(b.String(), "?missing?") {
+				continue
+			}
+			// keep the import used
+			pkgLocal := localName[named.Obj().Pkg()]
+			if pkgLocal == "" {
+				continue
+			}
+			fmt.Fprintf(&b, "var _ %s.%s\n", pkgLocal, named.Obj().Name())
+			eds := append([]edit{}, constEds...)
+			eds = append(eds, edit{off(fl.Type.Pos()), off(fl.Type.End()), "*" + typ}, edit{len(f.Src), len(f.Src), b.String()})
+			out = append(out, eds)
+		}
+	}
+	return out
+}
+
 // Systematic builds the S4 stream.
 func Systematic(bases []*Pkg, tier string, seed int64, stats map[string]int) []*Pkg {
 	var out []*Pkg
@@ -327,7 +556,9 @@ func Systematic(bases []*Pkg, tier string, seed int64, stats map[string]int) []*
 	if tier == "thorough" {
 		rots = []int{0, 1, 2}
 	}
+	var lastAdded *Pkg
 	add := func(base *Pkg, f *File, kind string, eds []edit, ins []insertion) {
+		lastAdded = nil
 		if len(eds) == 0 {
 			stats["s4-inapplicable:"+kind]++
 			return
@@ -356,6 +587,7 @@ func Systematic(bases []*Pkg, tier string, seed int64, stats map[string]int) []*
 			np.Ins = ins
 		}
 		out = append(out, np)
+		lastAdded = np
 	}
 	for _, base := range bases {
 		for _, f := range base.Files {
@@ -372,6 +604,21 @@ func Systematic(bases []*Pkg, tier string, seed int64, stats map[string]int) []*
 					ins = []insertion{}
 				}
 				add(base, f, "layout"+strconv.Itoa(parity), eds, ins)
+			}
+			if base.Stream == "S1" {
+				add(base, f, "odd-comments", sysOddComments(f, id), nil)
+			}
+			for k, eds := range sysRetype(base, f, id, false) {
+				add(base, f, "retype-receiver"+strconv.Itoa(k), eds, nil)
+				if lastAdded != nil {
+					lastAdded.ClaimCheck = "*"
+				}
+			}
+			for k, eds := range sysRetype(base, f, id, true) {
+				add(base, f, "retype-receiver+constify"+strconv.Itoa(k), eds, nil)
+				if lastAdded != nil {
+					lastAdded.ClaimCheck = "*"
+				}
 			}
 			add(base, f, "namesake-import", sysNamesakeImport(base, f), nil)
 			add(base, f, "namesake-var", sysNamesakeVar(base, f, id), nil)
